@@ -18,6 +18,7 @@
     mhremove <id> <cycle> <hexhost> <w>     ok | err
     mhsel <id> <code> ...                   <hexhost>:<w> | err | panic
     route <cc 0|1> <set 0|1> <ty> <code>    <isHash> <hashType> <hashCode> <strategy>
+    routeops <cc 0|1> <op> ...              same, after the per-call options h:<ty>:<code> | t:<ms> | i | p in that order
     sap <direct> <nEp> <nEpf> <pending> <isHash> <ty> <code> <ring id> <mh id> <rr hexhost:w|err>
                                             outcome of SelectAdapterProxy
     hashfn <s|e|n|m> <rune> ...             HashString | Hash | HashNew | MagicStringHash
@@ -251,6 +252,23 @@ def step (st : St) (ws : List String) : St × String :=
       let m := msgOfCtx ctx
       (st, s!"{if m.isHash then 1 else 0} {m.hashType} {m.hashCode} {showStrategy (strategy m)}")
     | _, _, _, _ => (st, "bad-op")
+  | "routeops" :: cc :: toks =>
+    match parseBool? cc with
+    | some hasCC =>
+      let parseOp (t : String) : Option CtxOp :=
+        match splitOn ':' t with
+        | ["h", ty, code] => (match parseInt? ty, parseNat? code with | some a, some b => some (.hash a b) | _, _ => none)
+        | ["t", ms] => (parseInt? ms).map .timeout
+        | ["i"] => some (.serverIP "x")
+        | ["p"] => some (.serverPort "x")
+        | _ => none
+      let ops := toks.filterMap parseOp
+      if ops.length ≠ toks.length then (st, "bad-op")
+      else
+        let ctx : Option ClientCurrent := if hasCC then some newClientCurrent else none
+        let m := msgOfCtx (applyCtxOps ctx ops)
+        (st, s!"{if m.isHash then 1 else 0} {m.hashType} {m.hashCode} {showStrategy (strategy m)}")
+    | none => (st, "bad-op")
   | ["sap", direct, nEp, nEpf, pending, isHash, ty, code, rid, mid, rr] =>
     match parseBool? direct, parseNat? nEp, parseNat? nEpf, parseBool? pending, parseBool? isHash, parseInt? ty,
           parseNat? code, parseNat? rid, parseNat? mid with
